@@ -243,7 +243,7 @@ type protobufMapType struct {
 	Value *protobufType `"," @@ ">"`
 }
 
-var protobufParser = participle.MustBuild[protobufProto](participle.UseLookahead(2))
+var protobufParser = mustBuild[protobufProto](participle.UseLookahead(2))
 
 const protobufExample = `syntax = "proto3";
 
